@@ -4,9 +4,10 @@ import SqlfluffVerif.Driver.Patch
 import SqlfluffVerif.Driver.Dedupe
 import SqlfluffVerif.Driver.Noqa
 import SqlfluffVerif.Driver.Select
+import SqlfluffVerif.Driver.MatchResult
 open SqlfluffVerif SqlfluffVerif.Proto SqlfluffVerif.Driver
 
-def handlers : List (List String → Option String) := [handlePos, handlePatch, handleDedupe, handleNoqa, handleSelect]
+def handlers : List (List String → Option String) := [handlePos, handlePatch, handleDedupe, handleNoqa, handleSelect, handleMR]
 
 def handle (toks : List String) : String :=
   match toks with
